@@ -45,6 +45,7 @@ inductive Doc
   | int (i : Int)
   | num (r : Rat)
   | str (s : String)
+  | date (o : Int)                       -- a `datetime.date` (YAML), as its proleptic ordinal
   | arr (xs : List Doc)
   | obj (kvs : List (DKey × Doc))
 deriving Inhabited
@@ -270,6 +271,14 @@ def dateOfText (s : String) : R Int :=
         if [a, b, c, d, m1, m2, d1, d2].all isDigit ∧ a ≠ '0' then .error .situation else .error .unmodelled
       | _ => .error .unmodelled
 
+/-- what fits a C `long`: beyond it numpy raises `OverflowError` ("too large") -/
+def inInt64 (i : Int) : Bool := decide (-9223372036854775808 ≤ i ∧ i ≤ 9223372036854775807)
+
+def inInt32 (i : Int) : Bool := decide (-2147483648 ≤ i ∧ i ≤ 2147483647)
+
+/-- the C conversion `long → int32` (silent two's-complement wrap) -/
+def wrap32 (i : Int) : Int := (i + 2147483648) % 4294967296 - 2147483648
+
 /-- a list given where one value is expected: `array[index] = sequence` raises (repair C12c) -/
 def listAsScalar (xs : List Doc) : R Val :=
   if xs.length = 1 then .error .unmodelled else .error .situation
@@ -279,6 +288,13 @@ def listAsScalar (xs : List Doc) : R Val :=
 def checkSetValue (var : Var) (d : Doc) : R Val :=
   match var.vtype, d with
   | _, .null => .error .unmodelled
+  -- a `datetime.date`
+  | .date, .date o => .ok (.date o)
+  | .float, .date _ => .error .situation
+  | .int, .date _ => .error .situation
+  | .enum _, .date _ => .error .situation
+  | .bool, .date _ => .ok (.bool true)
+  | .str, .date _ => .error .unmodelled
   -- float
   | .float, .int i => .ok (.num i)
   | .float, .num r => .ok (.num r)
@@ -287,10 +303,12 @@ def checkSetValue (var : Var) (d : Doc) : R Val :=
   | .float, .arr xs => listAsScalar xs
   | .float, .obj _ => .error .situation
   -- int
-  | .int, .int i => .ok (.int i)
-  | .int, .num r => .ok (.int (truncR r))
+  | .int, .int i => if inInt64 i then .ok (.int (wrap32 i)) else .error .situation
+  | .int, .num r => if inInt64 (truncR r) then .ok (.int (wrap32 (truncR r))) else .error .situation
   | .int, .bool b => .ok (.int (if b then 1 else 0))
-  | .int, .str s => (numOfText s).map (fun r => Val.int (truncR r))
+  | .int, .str s => match numOfText s with
+    | .error e => .error e
+    | .ok r => if inInt32 (truncR r) then .ok (.int (truncR r)) else .error .unmodelled
   | .int, .arr xs => listAsScalar xs
   | .int, .obj _ => .error .situation
   -- bool
@@ -309,16 +327,20 @@ def checkSetValue (var : Var) (d : Doc) : R Val :=
   | .str, .obj _ => .error .unmodelled
   -- date
   | .date, .str s => (dateOfText s).map Val.date
-  | .date, .int i => .ok (.date (epochOrd + i))
+  | .date, .int i =>
+    if !inInt64 i then .error .situation
+    else if -700000 ≤ i ∧ i ≤ 2900000 then .ok (.date (epochOrd + i)) else .error .unmodelled
   | .date, .bool _ => .error .unmodelled
   | .date, .num _ => .error .situation
   | .date, .arr _ => .error .situation
   | .date, .obj _ => .error .situation
   -- enum
   | .enum names, .str s => if s ∈ names then .ok (.enum (names.idxOf s)) else .error .situation
-  | .enum names, .int i => if 0 ≤ i ∧ i < names.length then .ok (.enum i.toNat) else .error .unmodelled
+  | .enum names, .int i =>
+    if !inInt64 i then .error .situation
+    else if 0 ≤ i ∧ i < names.length then .ok (.enum i.toNat) else .error .unmodelled
   | .enum _, .bool _ => .error .unmodelled
-  | .enum _, .num _ => .error .unmodelled
+  | .enum _, .num r => if inInt64 (truncR r) then .error .unmodelled else .error .situation
   | .enum _, .arr xs => listAsScalar xs
   | .enum _, .obj _ => .error .situation
 
@@ -344,18 +366,22 @@ def mapE {α β : Type} (f : α → R β) : List α → R (List β)
 def Doc.asObj? : Doc → Option (List (DKey × Doc))
   | .obj kvs => some kvs
   | .null => none | .bool _ => none | .int _ => none | .num _ => none | .str _ => none | .arr _ => none
+  | .date _ => none
 
 def Doc.asArr? : Doc → Option (List Doc)
   | .arr xs => some xs
   | .null => none | .bool _ => none | .int _ => none | .num _ => none | .str _ => none | .obj _ => none
+  | .date _ => none
 
 def Doc.str? : Doc → Option String
   | .str s => some s
   | .null => none | .bool _ => none | .int _ => none | .num _ => none | .arr _ => none | .obj _ => none
+  | .date _ => none
 
 def Doc.isNull : Doc → Bool
   | .null => true
   | .bool _ => false | .int _ => false | .num _ => false | .str _ => false | .arr _ => false | .obj _ => false
+  | .date _ => false
 
 /-- association list read: the first entry for the key -/
 def alGet {κ β : Type} [DecidableEq κ] : List (κ × β) → κ → Option β
@@ -454,6 +480,7 @@ def strictItem : Doc → Doc
   | .int i => .str (toString i)
   | .bool b => .str (if b then "True" else "False")
   | .null => .null | .num r => .num r | .str s => .str s | .arr xs => .arr xs | .obj kvs => .obj kvs
+  | .date o => .date o
 
 /-- `helpers.transform_to_strict_syntax` -/
 def strictSyntax : Doc → Doc
@@ -461,7 +488,7 @@ def strictSyntax : Doc → Doc
   | .int i => .arr [.str (toString i)]
   | .bool b => .arr [.str (if b then "True" else "False")]
   | .arr xs => .arr (xs.map strictItem)
-  | .null => .null | .num r => .num r | .obj kvs => .obj kvs
+  | .null => .null | .num r => .num r | .obj kvs => .obj kvs | .date o => .date o
 
 /-- `roles_json` of one instance: for every role, the strict form of what the instance gives
 under `role.plural or role.key` (nothing = `[]`) -/
@@ -605,6 +632,7 @@ def Doc.truthy : Doc → Bool
   | .int i => i ≠ 0
   | .num r => r ≠ 0
   | .str s => s ≠ ""
+  | .date _ => true
   | .arr xs => !xs.isEmpty
   | .obj kvs => !kvs.isEmpty
 
@@ -636,16 +664,17 @@ deriving Repr, Inhabited
 def Doc.rat? : Doc → Option Rat
   | .int i => some i
   | .num r => some r
-  | .null => none | .bool _ => none | .str _ => none | .arr _ => none | .obj _ => none
+  | .null => none | .bool _ => none | .str _ => none | .arr _ => none | .obj _ => none | .date _ => none
 
 def Doc.nat? : Doc → Option Nat
   | .int i => if 0 ≤ i then some i.toNat else none
   | .null => none | .bool _ => none | .num _ => none | .str _ => none | .arr _ => none | .obj _ => none
+  | .date _ => none
 
 def Doc.key? : Doc → Option DKey
   | .str s => some (.s s)
   | .int i => some (.i i)
-  | .null => none | .bool _ => none | .num _ => none | .arr _ => none | .obj _ => none
+  | .null => none | .bool _ => none | .num _ => none | .arr _ => none | .obj _ => none | .date _ => none
 
 /-- one axis description; anything but the documented shape is outside the model -/
 def parseAxis (d : Doc) : R Axis :=
@@ -941,7 +970,7 @@ def personCount (kvs : List (DKey × Doc)) : R Nat :=
     | .str _ => .ok 1
     | .arr xs => if xs = [] then .error .unmodelled else .ok xs.length
     | .obj _ => .error .unmodelled
-    | .null => .ok 1 | .bool _ => .ok 1 | .int _ => .ok 1 | .num _ => .ok 1
+    | .null => .ok 1 | .bool _ => .ok 1 | .int _ => .ok 1 | .num _ => .ok 1 | .date _ => .ok 1
   match kvs with
   | [] => .ok 1
   | (_, d) :: _ =>
@@ -950,6 +979,7 @@ def personCount (kvs : List (DKey × Doc)) : R Nat :=
     | .obj ((_, d') :: _) => ofValue d'
     | .str _ => ofValue d | .arr _ => ofValue d
     | .null => ofValue d | .bool _ => ofValue d | .int _ => ofValue d | .num _ => ofValue d
+    | .date _ => ofValue d
 
 /-- element of a list handed to `Holder._to_array` (`numpy.asarray(...).astype(dtype)`,
 `Enum.encode`); every refusal is an ordinary exception here -/
@@ -971,6 +1001,9 @@ def scalarConv (var : Var) (d : Doc) : R Val :=
     | .error .other => .error .other
     | .error .unmodelled => .error .unmodelled
   | .enum names, .str s => if s ∈ names then .ok (.enum (names.idxOf s)) else .error .other
+  | .date, .date o => .ok (.date o)
+  | .float, .date _ => .error .other | .int, .date _ => .error .other
+  | .bool, .date _ => .error .unmodelled | .str, .date _ => .error .unmodelled | .enum _, .date _ => .error .unmodelled
   | .float, .str _ => .error .unmodelled | .float, .null => .error .unmodelled
   | .float, .arr _ => .error .unmodelled | .float, .obj _ => .error .unmodelled
   | .int, .str _ => .error .unmodelled | .int, .null => .error .unmodelled
@@ -992,6 +1025,7 @@ def toArrayDoc (var : Var) (d : Doc) : R Vec :=
   | .bool _ => (scalarConv var d).map (fun v => [v])
   | .int _ => (scalarConv var d).map (fun v => [v])
   | .num _ => (scalarConv var d).map (fun v => [v])
+  | .date _ => (scalarConv var d).map (fun v => [v])
   | .str _ =>
     match var.vtype with
     | .float => .error .unmodelled        -- `eval_expression` on a bare text
